@@ -135,6 +135,9 @@ func main() {
 			tier = t
 		}
 		e, ok := engines[prop]
+		if _, isSpec := g1Specs[prop]; !ok && isSpec && os.Getenv("VERIF_OUT") != "" {
+			e, ok = checkG1, true // debugging: a single search of a group (evidence goes to the scratch output directory)
+		}
 		if !ok {
 			fmt.Fprintln(os.Stderr, "no check for", prop)
 			os.Exit(2)
@@ -320,6 +323,8 @@ func checkG1(prop, tier string) int {
 		agg.Killed += st.Killed
 		agg.Terminals += st.Terminals
 		agg.Skipped += st.Skipped
+		agg.AfterFull += st.AfterFull
+		agg.AfterPartial += st.AfterPartial
 		agg.Exhaustive = agg.Exhaustive && st.Exhaustive
 		if st.Cap != "" {
 			caps = append(caps, name+": "+st.Cap)
@@ -388,12 +393,14 @@ func checkG1(prop, tier string) int {
 			"unstable_violations":                 unstable,
 			"threads_killed_at_teardown":          st.Killed,
 			"terminal_phase_runs":                 st.Terminals,
-			"alphabets":                           alphas,
-			"note":                                strings.Join(notes, " || "),
+			"transitions_into_states_after_a_full_compaction":    st.AfterFull,
+			"transitions_into_states_after_a_partial_compaction": st.AfterPartial,
+			"alphabets": alphas,
+			"note":      strings.Join(notes, " || "),
 		}}
 	writeEvidence(ev)
-	fmt.Fprintf(os.Stderr, "[%s %s] states=%d transitions=%d shapes=%d violations=%d known=%v infra=%d exhaustive=%v wall=%.1fs\n",
-		prop, tier, st.States, st.Transitions, len(st.Shapes), len(confirmed), st.Known, st.Infra, st.Exhaustive, time.Since(t0).Seconds())
+	fmt.Fprintf(os.Stderr, "[%s %s] states=%d transitions=%d shapes=%d violations=%d known=%v infra=%d exhaustive=%v afterfull=%d afterpartial=%d wall=%.1fs\n",
+		prop, tier, st.States, st.Transitions, len(st.Shapes), len(confirmed), st.Known, st.Infra, st.Exhaustive, st.AfterFull, st.AfterPartial, time.Since(t0).Seconds())
 	_ = firstSp
 	if len(confirmed) > 0 {
 		return 1
